@@ -151,12 +151,42 @@ pub fn triggers(src: &str, root: &SyntaxNode) -> Vec<&'static str> {
             K::BlockComment if f.node.text().chars().any(|c| syn::is_nl(c) && c != '\n') => add("R37"),
             // R24 (second form): a `;` that terminates embedded code inside math
             // (only inside an argument list: elsewhere it was repaired by the fix for fractions)
-            K::Semicolon
-                if in_math[i]
-                    && matches!(f.parent, Some(K::Args | K::Array | K::Named | K::Spread))
-                    && f.parent_idx.is_some_and(|p| flat[p].node.children().any(|c| c.kind() == K::Hash)) =>
-            {
-                add("R24")
+            K::Semicolon if in_math[i] && matches!(f.parent, Some(K::Args | K::Array | K::Named | K::Spread)) => {
+                // the `;` follows embedded code directly (blanks ignored): the last token before it
+                // belongs to an expression behind a `#` inside the same argument list
+                let prev = leaves[..li].iter().rev().map(|&j| j).find(|&j| flat[j].node.kind() != K::Space);
+                if let Some(mut j) = prev {
+                    let stop = f.parent_idx;
+                    let mut hit = false;
+                    loop {
+                        // previous sibling of flat[j] a hash?
+                        if let Some(p) = flat[j].parent_idx {
+                            let mut prev_sib: Option<K> = None;
+                            for g in flat.iter().filter(|g| g.parent_idx == Some(p)) {
+                                if g.start == flat[j].start && g.end == flat[j].end && std::ptr::eq(g.node, flat[j].node) {
+                                    break;
+                                }
+                                if g.node.kind() != K::Space {
+                                    prev_sib = Some(g.node.kind());
+                                }
+                            }
+                            if prev_sib == Some(K::Hash) {
+                                hit = true;
+                                break;
+                            }
+                            if Some(p) == stop || flat[p].node.kind() == K::Equation {
+                                break;
+                            }
+                            j = p;
+                        } else {
+                            break;
+                        }
+                    }
+                    // `#x;;`: a second semicolon right behind one that ended code
+                    if hit || flat[j].node.kind() == K::Semicolon {
+                        add("R24");
+                    }
+                }
             }
             // R11 (markup form): a `\` line break whose trailing blank is an edge blank of an item body
             // directly before `]` is glued to the bracket (`#[+ \ ]` -> `#[+ \]`)
@@ -486,10 +516,8 @@ pub fn triggers(src: &str, root: &SyntaxNode) -> Vec<&'static str> {
             // the embedded code sits in a named or spread argument (`$f(..#g ;a)$` -> `$f(..#g; a)$`).
             K::Args if f.node.children().any(|c| c.kind() == K::Semicolon) => {
                 // (generous: any embedded code inside a 2-D argument list; `#x;;` loses a semicolon too)
-                let hashed_special = in_math[i] && syn::any_node(f.node, &mut |c| c.kind() == K::Hash);
-                if hashed_special {
-                    add("R24");
-                }
+                // (the trigger proper is the Semicolon rule above: a `;` directly behind embedded code)
+                let _ = in_math[i];
             }
             // R29: a row of 2-D math arguments that is laid out one item per line (it holds a line
             // comment, or its first blank holds a line break) gets a trailing comma, i.e. one more
@@ -857,6 +885,8 @@ pub fn triggers(src: &str, root: &SyntaxNode) -> Vec<&'static str> {
                     }
                 }
             }
+            // R71: a closure written without parentheses as an operand of a binary expression
+            K::Closure if f.parent == Some(K::Binary) => add("R71"),
             // R69: a statement embedded in an equation
             K::LetBinding | K::SetRule | K::ShowRule | K::ModuleImport | K::ModuleInclude
                 if in_math[i] && matches!(f.parent, Some(K::Math | K::MathDelimited | K::MathAttach | K::MathFrac | K::MathRoot | K::Equation)) =>
